@@ -332,7 +332,9 @@ fn invalid_stmt_basic(g: &mut G, which: u64) -> (&'static str, String, Place)
 {
 	use Place::*;
 	let rng = &mut g.rng;
-	let regname = |rng: &mut Rng| rng.pick(&["R0", "r1", "R7", "R8", "r12", "R13", "SP", "sp", "LR", "lr", "PC", "pc", "R15", "Sp"]).to_string();
+	// every reserved name: the 16 core registers with their aliases and the special registers, in any letter case
+	let regname = |rng: &mut Rng| rng.pick(&["R0", "r1", "R7", "R8", "r12", "R13", "SP", "sp", "LR", "lr", "PC", "pc", "R15", "Sp", "R2", "r3", "R4", "r5", "R6", "r9", "R10", "r11", "R14",
+		"APSR", "apsr", "IAPSR", "iapsr", "EAPSR", "XPSR", "xpsr", "IPSR", "EPSR", "IEPSR", "iepsr", "MSP", "msp", "PSP", "PRIMASK", "primask", "PriMask", "CONTROL", "control", "Control"]).to_string();
 	let dirs1 = [".addr", ".align", ".du8", ".du16", ".du32", ".dhex", ".dstr", ".dfile", ".global", ".import", ".export", ".include"];
 	match which
 	{
@@ -766,7 +768,7 @@ fn main()
 	let scope_only = std::env::args().nth(6).as_deref() == Some("scope");
 	if scope_only
 	{
-		const SCOPE: [&str; 6] = ["private_of_includer", "never_valued_import", "never_valued", "undefined", "duplicate", "register_name"];
+		const SCOPE: [&str; 8] = ["private_of_includer", "never_valued_import", "never_valued", "undefined", "duplicate", "reg_const", "reg_label", "reg_global"];
 		let rounds = if thorough { 40_000 } else { 1_500 };
 		for _ in 0..rounds
 		{
